@@ -338,3 +338,39 @@ def cvc5_check(smt2, timeout_ms=60000):
         return last or "none"
     except Exception as e:  # noqa
         return "error:%s" % type(e).__name__
+
+
+def cvc5_string_query(smt2, timeout_ms=120000):
+    """decide a string query with cvc5 (strings-exp); returns (verdict, model dict name->str value when sat)"""
+    import re
+
+    try:
+        import cvc5
+    except Exception:
+        return "unavailable", {}
+    try:
+        slv = cvc5.Solver()
+        slv.setOption("tlimit-per", str(timeout_ms))
+        slv.setOption("produce-models", "true")
+        slv.setOption("strings-exp", "true")
+        slv.setLogic("ALL")
+        p = cvc5.InputParser(slv)
+        p.setStringInput(cvc5.InputLanguage.SMT_LIB_2_6, smt2 + "\n(get-model)\n", "q")
+        sm = p.getSymbolManager()
+        verdict, model = "none", {}
+        while True:
+            cmd = p.nextCommand()
+            if cmd.isNull():
+                break
+            try:
+                r = str(cmd.invoke(slv, sm)).strip()
+            except Exception:  # noqa  (get-model after unsat)
+                continue
+            if r in ("sat", "unsat", "unknown"):
+                verdict = r
+            elif r.startswith("("):
+                for m in re.finditer(r'\(define-fun (\S+) \(\) String "([^"]*)"\)', r):
+                    model[m.group(1)] = m.group(2)
+        return verdict, model
+    except Exception as e:  # noqa
+        return "error:%s" % type(e).__name__, {}
